@@ -125,6 +125,8 @@ pub struct ReadStats {
     pub hard: u64,
     pub max_buf_offered: usize,
     pub min_buf_offered: usize,
+    /// buffer length offered by the very first read call (the iterator's initial capacity, seen from outside)
+    pub first_buf_offered: usize,
 }
 
 impl SimReader {
@@ -179,6 +181,9 @@ impl Read for SimReader {
         let call = self.calls;
         self.calls += 1;
         let pos_before = self.pos;
+        if call == 0 {
+            self.stats.first_buf_offered = buf.len();
+        }
         self.stats.max_buf_offered = self.stats.max_buf_offered.max(buf.len());
         self.stats.min_buf_offered = self.stats.min_buf_offered.min(buf.len());
         if self.calls > self.call_budget {
